@@ -85,6 +85,11 @@ func opGoGen(j Job) Res {
 			ovs = append(ovs, map[string]interface{}{"basic": o.GoBasicType, "type_name": o.GoTypeName, "import_path": o.GoImportPath, "package": o.GoPackage})
 		}
 		res["overrides"] = ovs
+		res["settings"] = dumpSettings(combo)
+		res["compiled"] = dumpCompiled(result)
+		res["catalog"] = dumpCatalog(result.Catalog)
+		res["default_schema"] = result.Catalog.DefaultSchema
+		res["engine"] = string(sql.Engine)
 		res["prepared"] = combo.Go.EmitPreparedQueries
 		res["interface"] = combo.Go.EmitInterface
 		imps := map[string]interface{}{}
@@ -128,4 +133,37 @@ func dumpGoStruct(s *golang.Struct) interface{} {
 
 func dumpGoValue(v golang.VerifValue) interface{} {
 	return map[string]interface{}{"empty": v.Empty, "emit": v.Emit, "is_struct": v.IsStruct, "name": v.Name, "type": v.Type, "typ": v.Typ, "struct": dumpGoStruct(v.Struct)}
+}
+
+// dumpSettings: what buildQueries / goType read from the combined settings
+func dumpSettings(combo config.CombinedSettings) map[string]interface{} {
+	ovs := []interface{}{}
+	for _, o := range combo.Overrides {
+		ovs = append(ovs, map[string]interface{}{"go_type_name": o.GoTypeName, "column": o.Column, "column_name": o.ColumnName,
+			"table_catalog": o.Table.Catalog, "table_schema": o.Table.Schema, "table_rel": o.Table.Rel, "db_type": o.DBType, "nullable": o.Nullable})
+	}
+	ren := [][2]string{}
+	for k, v := range combo.Rename {
+		ren = append(ren, [2]string{k, v})
+	}
+	sort.Slice(ren, func(i, j int) bool { return ren[i][0] < ren[j][0] })
+	return map[string]interface{}{"overrides": ovs, "rename": ren, "db_tags": combo.Go.EmitDBTags, "json_tags": combo.Go.EmitJSONTags,
+		"json_style": combo.Go.JSONTagsCaseStyle, "exact_table_names": combo.Go.EmitExactTableNames}
+}
+
+func dumpCompiled(result *compiler.Result) []interface{} {
+	qs := []interface{}{}
+	for _, q := range result.Queries {
+		cols := []interface{}{}
+		for _, col := range q.Columns {
+			cols = append(cols, dumpColumn(col))
+		}
+		params := []interface{}{}
+		for _, p := range q.Params {
+			params = append(params, map[string]interface{}{"number": p.Number, "column": dumpColumn(p.Column)})
+		}
+		comments := append([]string{}, q.Comments...)
+		qs = append(qs, map[string]interface{}{"name": q.Name, "cmd": q.Cmd, "sql": q.SQL, "comments": comments, "columns": cols, "params": params, "filename": q.Filename})
+	}
+	return qs
 }
